@@ -28,6 +28,17 @@ MaskInv(m, t, ys) == [i \in DOMAIN ys |-> IF m[i] THEN Inv(t, ys[i]) ELSE ys[i]]
 TreeFwd(ts, xs) == [i \in DOMAIN xs |-> Fwd(ts[i], xs[i])]
 TreeInv(ts, ys) == [i \in DOMAIN ys |-> Inv(ts[i], ys[i])]
 
+\* a PARTIAL transform (like softplus, whose inverse exists only on its range): D -> 2..5; outside, the result is undefined
+Undef == 99
+E == 0..5
+PF == <<2, 4, 5, 3>>
+PFwd(x) == IF x \in D THEN PF[x + 1] ELSE Undef
+PInv(y) == IF \E x \in D : PF[x + 1] = y THEN CHOOSE x \in D : PF[x + 1] = y ELSE Undef
+\* an excluded entry passes through whatever the inner transform would have made of it - also where that is undefined
+PMaskFwd(m, xs) == [i \in DOMAIN xs |-> IF m[i] THEN PFwd(xs[i]) ELSE xs[i]]
+PMaskInv(m, ys) == [i \in DOMAIN ys |-> IF m[i] THEN PInv(ys[i]) ELSE ys[i]]
+PVecs == {<<0, 1, 5>>, <<4, 0, 2>>, <<1, 3, 0>>, <<5, 5, 1>>}
+
 Chains == UNION {[1..n -> 1..3] : n \in 1..3}
 Masks == [1..3 -> BOOLEAN]
 Trees == [1..3 -> 1..3]
@@ -38,6 +49,7 @@ Init == kind = "none" /\ obj = <<>> /\ val = <<>>
 Pick ==
   \/ \E c \in Chains : kind' = "chain" /\ obj' = c /\ val' = [x \in D |-> <<ChainFwd(c, x), ChainInv(c, x)>>]
   \/ \E m \in Masks, t \in 1..3, v \in Vecs : kind' = "mask" /\ obj' = <<m, t, v>> /\ val' = <<MaskFwd(m, t, v), MaskInv(m, t, v)>>
+  \/ \E m \in Masks, v \in PVecs : kind' = "pmask" /\ obj' = <<m, v>> /\ val' = <<PMaskFwd(m, v), PMaskInv(m, v)>>
   \/ \E ts \in Trees, v \in Vecs : kind' = "tree" /\ obj' = <<ts, v>> /\ val' = <<TreeFwd(ts, v), TreeInv(ts, v)>>
 Next == kind = "none" /\ Pick
 Spec == Init /\ [][Next]_<<kind, obj, val>>
@@ -45,7 +57,11 @@ Spec == Init /\ [][Next]_<<kind, obj, val>>
 \* properties of the structure itself
 ChainIsBijection == kind = "chain" => \A x \in D : ChainInv(obj, ChainFwd(obj, x)) = x /\ ChainFwd(obj, ChainInv(obj, x)) = x
 MaskRoundTrip == kind = "mask" => MaskInv(obj[1], obj[2], MaskFwd(obj[1], obj[2], obj[3])) = obj[3]
+ExcludedEntriesPassThrough == kind = "pmask" => \A i \in 1..3 : ~obj[1][i] => (val[1][i] = obj[2][i] /\ val[2][i] = obj[2][i])
+\* an included entry round-trips wherever the inner inverse is defined
+PartialRoundTrip == kind = "pmask" => \A i \in 1..3 : (obj[1][i] /\ val[2][i] # Undef) => PFwd(val[2][i]) = obj[2][i]
 EachEntryItsOwnTransform == kind = "tree" => \A i \in 1..3 : val[1][i] = Fwd(obj[1][i], obj[2][i])
 Emit == kind # "none" => PrintT(<<"TF", ToJson([kind |-> kind, obj |-> obj, val |-> val])>>)
 ASSUME PrintT(<<"PERMS", ToJson(Perms)>>)
+ASSUME PrintT(<<"PARTIAL", ToJson(PF)>>)
 =============================================================================
